@@ -57,10 +57,12 @@ UA = "11111111-2222-4333-8444-555555555555"       # pre-existing identifier (v4)
 UB = "bbbbbbbb-bbbb-4bbb-8bbb-bbbbbbbbbbbb"       # subscription identity answer (v4)
 UNV4 = "11111111-2222-1333-c444-555555555555"     # parses as a UUID, not version 4
 CANON_RE = re.compile(r"^[0-9a-f]{8}-[0-9a-f]{4}-[0-9a-f]{4}-[0-9a-f]{4}-[0-9a-f]{12}$")
-# what the oracle calls an existing VALID identifier file: a hyphenated UUID, optional surrounding white space.
-# Weaker reading of "an existing identifier file is never rewritten by a read": nothing is demanded for empty,
-# unparsable or legacy un-hyphenated files, which a read may legitimately replace, reject or migrate.
-VALID_RE = re.compile(r"^\s*[0-9a-fA-F]{8}-[0-9a-fA-F]{4}-[0-9a-fA-F]{4}-[0-9a-fA-F]{4}-[0-9a-fA-F]{12}\s*$")
+# what the oracle calls an existing VALID identifier file: anything that parses as a UUID - hyphenated or the legacy
+# un-hyphenated form (the property's quantifier names it), any letter case, optional surrounding white space.
+# "An existing identifier file is never rewritten by a read": nothing is demanded for empty or unparsable files,
+# which a read may legitimately replace or reject. (First version exempted legacy files too; a seeded change that
+# rewrites them on read showed that exemption was weaker than the statement.)
+VALID_RE = re.compile(r"^\s*[0-9a-fA-F]{8}-?[0-9a-fA-F]{4}-?[0-9a-fA-F]{4}-?[0-9a-fA-F]{4}-?[0-9a-fA-F]{12}\s*$")
 OLD_NS = 1000000000 * 10 ** 9                      # 2001-09-09: every file is aged to this before an event
 
 MID = "etc1/machine-id"
@@ -86,7 +88,7 @@ MID_KINDS = collections.OrderedDict([
     ("link:legacy", (("l", T_ID), UA.replace("-", ""))),
     ("link:empty", (("l", T_ID), "")),
 ])
-QUICK_MID = ["absent", "A", "legacy", "empty", "garbage", "link:A", "link:dangling"]
+QUICK_MID = ["absent", "A", "A_nl", "legacy", "empty", "garbage", "link:A", "link:dangling"]
 MARKER_KINDS = {"absent": None, "file": ("f", "M"), "link": ("l", T_OK), "dangling": ("l", T_NO)}
 MK_ORDER = ["absent", "file", "link", "dangling"]
 
